@@ -7,7 +7,8 @@ From Coq Require Import ZArith NArith QArith Qabs List Bool Permutation.
 From SF Require Import Base.Outcome Base.GeomAST Model.TrCommon Model.TrReverse Model.TrSnap Model.TrForce
   Model.TrSimplify Model.TrDensify Model.TrInterp
   Proofs.TrReverse_proofs Proofs.TrSnap_proofs Proofs.TrForce_proofs Proofs.TrSimplify_proofs
-  Proofs.TrDensify_proofs Proofs.TrInterp_proofs Proofs.Transforms_proofs.
+  Proofs.TrDensify_proofs Proofs.TrInterp_proofs Proofs.Transforms_proofs
+  Model.TrSnapFloat Proofs.TrSnapFloat_proofs Model.TrJudge Proofs.TrDensifyGeom_proofs.
 Import ListNotations.
 
 (* ===================== Reverse (every geometry type, every ordinate carrier F) ===================== *)
@@ -123,6 +124,15 @@ Theorem densify_line : forall (kf : qv -> qv -> Z) (d : Q) (l : lineT Q),
 Proof. exact densify_line_lemma. Qed.
 Print Assumptions densify_line.
 
+(* whole geometries (every type, nested collections): for d > 0 Densify does not panic, keeps type
+   and coordinates type, and every line / ring of the result is the densified line / ring of the
+   input, in storage order (geom_lines lists them) *)
+Theorem densify_geometry : forall (kf : qv -> qv -> Z) (d : Q), 0 < d -> forall g : geomT Q,
+  exists g', dens_geom kf d g = Ok g' /\ geom_type g' = geom_type g /\ geom_ct g' = geom_ct g
+             /\ Forall2 (line_dens kf) (geom_lines g) (geom_lines g').
+Proof. exact dens_geom_rel. Qed.
+Print Assumptions densify_geometry.
+
 (* the float code's lerp, branch by branch, is a + t(b-a) in exact arithmetic *)
 Theorem lerp_exact : forall a b t : Q, lerpQ a b t == a + t * (b - a).
 Proof. exact lerpQ_exact. Qed.
@@ -168,6 +178,11 @@ Print Assumptions rdp_negative_threshold_refuted.
 Theorem rdp_checker_complete : forall (t : Q) (i o : list qv), RdpRel t i o -> rdp_rel_b t i o = true.
 Proof. exact rdp_rel_b_complete. Qed.
 Print Assumptions rdp_checker_complete.
+(* ... and nothing else: what it accepts is related by RdpRelV (RdpRel with "the same vertex" read as
+   "equal ordinates", distances taken to the retained vertices) *)
+Theorem rdp_checker_sound : forall (t : Q) (i o : list qv), rdp_rel_b t i o = true -> RdpRelV t i o.
+Proof. exact rdp_rel_b_sound. Qed.
+Print Assumptions rdp_checker_sound.
 
 (* LineString.Simplify: the RDP result or, when that has fewer than two distinct points, the empty
    LineString; coordinates type kept; the result always passes LineString validation *)
@@ -289,6 +304,28 @@ Theorem snap_grid_points_fixed : forall (k : Z) (dp : Z),
   snapQ (inject_Z k * grid_step dp) dp == inject_Z k * grid_step dp.
 Proof. exact snapQ_grid_fixed. Qed.
 Print Assumptions snap_grid_points_fixed.
+
+
+(* ===================== SnapToGrid on binary64 itself (primitive floats, by evaluation) ===================== *)
+(* The transcription snap_f of snapToGridFloat64 over IEEE-754 binary64 (Model/TrSnapFloat.v) is
+   compared bit for bit with the implementation on every run (float path of the correspondence).
+   F10: before fixes/F10.patch a finite ordinate becomes infinite or NaN. These statements depend on
+   the kernel's primitive float operations (listed by Print Assumptions; not axioms of this
+   development). *)
+Theorem snap_float_finite_refuted :
+  exists (x : PrimFloat.float) (dp : Z), f_is_finite x = true /\ f_is_finite (snap_f false x dp) = false.
+Proof. exact snap_float_finite_refuted_lemma. Qed.
+Print Assumptions snap_float_finite_refuted.
+
+(* the repaired code on the boundary values of the quantifier (+-1e300, +-0, smallest subnormal and
+   normal, +-2.5) x places {-320,-309,-308,-1,0,1,10,22,23,307,308,309,320}: finite, and odd as numbers *)
+Theorem snap_float_fixed_boundary :
+  forallb (fun x => forallb (fun dp => f_is_finite (snap_f true x dp)) f10_places) f10_inputs = true
+  /\ forallb (fun x => forallb (fun dp => PrimFloat.eqb (snap_f true (PrimFloat.opp x) dp)
+                                                        (PrimFloat.opp (snap_f true x dp))) f10_places)
+             f10_inputs = true.
+Proof. exact (conj snap_float_fixed_finite_on_boundary snap_float_fixed_odd_on_boundary). Qed.
+Print Assumptions snap_float_fixed_boundary.
 
 (* ===================== non-vacuity: the hypotheses are met by non-trivial values ===================== *)
 Definition v (x y : Z) : qv := Build_vtx (inject_Z x) (inject_Z y) 0 0.
